@@ -1763,6 +1763,8 @@ def _resolve_tagged_literal(
             return data_reader(v)
         except SyntaxError as e:
             raise ctx.syntax_error(e.message).with_traceback(e.__traceback__) from None
+        except (TypeError, ValueError) as e:
+            raise ctx.syntax_error(f"Invalid #{s} literal: {e}") from None
     elif s.ns is None and "." in s.name:
         return _load_record_or_type(ctx, s, v)
     else:
